@@ -1,7 +1,7 @@
 -- Obligations about the translated byte-layout functions: ds.Key.Encode / ds.DecodeKey (ds/ds.go),
 -- zset Item.encode / decodeItem (ds/zset/skiplist.go), storage Entry.encode / Entry.from (storage/entry.go):
 -- each equals the codec of the hand-written model (Model/Codec.lean) and does not panic on the stated domain.
--- functions: ds Key.Encode, ds DecodeKey, ds NewKey, ds/zset Item.encode, ds/zset decodeItem, storage Entry.encode, storage Entry.from
+-- functions: ds/hash decodeKeyValuePair, ds Key.Encode, ds DecodeKey, ds NewKey, ds/zset Item.encode, ds/zset decodeItem, storage Entry.encode, storage Entry.from
 -- properties: C14 C11
 -- import: NodisVerif.Model.Codec
 -- import: NodisVerif.Proofs.VarintLemmas
@@ -126,5 +126,49 @@ theorem storage_Entry_from_encode (t : Int) (val : Bytes) (e0 : storage.Entry) (
   have : ((byteOf t).toNat : Int) = t := by
     simp only [byteOf, UInt8.toNat_ofNat']; omega
   simp [this]
+
+/-- `hash.decodeKeyValuePair`: a varint length l, then l bytes of key, the rest is the value; it panics (slice bounds) exactly
+    when the varint is malformed (n < 0), or l is negative or exceeds what is left -/
+theorem hash_decodeKeyValuePair_eq (b : Bytes) :
+    hash.decodeKeyValuePair b =
+      (let l := (Varint.varint b).1
+       let n := (Varint.varint b).2
+       if 0 ≤ n ∧ 0 ≤ l ∧ l ≤ (b.length : Int) - n then
+         .ok (some ⟨(b.drop n.toNat).take l.toNat, (b.drop n.toNat).drop l.toNat⟩)
+       else .error .slice) := by
+  have hle := varint_snd_le b
+  rcases hv : Varint.varint b with ⟨l, n⟩
+  rw [hv] at hle
+  simp only at hle
+  simp only [hash.decodeKeyValuePair, binary_Varint, hv]
+  by_cases hn : 0 ≤ n
+  · rw [slice_from b n ⟨hn, hle⟩]
+    simp only [bind, Except.bind]
+    have hlen : ((b.drop n.toNat).length : Int) = (b.length : Int) - n := by
+      simp only [List.length_drop]; omega
+    by_cases hl : 0 ≤ l ∧ l ≤ (b.length : Int) - n
+    · have c : 0 ≤ n ∧ 0 ≤ l ∧ l ≤ (b.length : Int) - n := ⟨hn, hl⟩
+      have h1 : slice (b.drop n.toNat) 0 l = .ok ((b.drop n.toNat).take l.toNat) := by
+        have : (0 : Int) ≤ 0 ∧ (0 : Int) ≤ l ∧ l ≤ ((b.drop n.toNat).length : Int) := by omega
+        simp only [slice, this, and_self, if_true, pure, Except.pure]
+        simp
+      rw [h1, slice_from _ l (by omega)]
+      simp [c, pure, Except.pure]
+    · have c : ¬ (0 ≤ n ∧ 0 ≤ l ∧ l ≤ (b.length : Int) - n) := fun h => hl ⟨h.2.1, h.2.2⟩
+      have h1 : slice (b.drop n.toNat) 0 l = .error .slice := by
+        have : ¬ ((0 : Int) ≤ 0 ∧ (0 : Int) ≤ l ∧ l ≤ ((b.drop n.toNat).length : Int)) := by omega
+        simp only [slice, this, if_false]
+        rfl
+      rw [h1]
+      simp [c]
+  · have c : ¬ (0 ≤ n ∧ 0 ≤ l ∧ l ≤ (b.length : Int) - n) := fun h => hn h.1
+    have h1 : slice b n (len b) = .error .slice := by
+      have : ¬ ((0 : Int) ≤ n ∧ n ≤ len b ∧ len b ≤ (b.length : Int)) := fun h => hn h.1
+      simp [slice, this, throw, throwThe, MonadExceptOf.throw]
+    rw [h1]
+    simp [c, bind, Except.bind]
+
+example : hash.decodeKeyValuePair [4, 107, 49, 118] = .ok (some ⟨[107, 49], [118]⟩) := by decide
+example : hash.decodeKeyValuePair [40, 107] = .error .slice := by decide
 
 end NodisVerif.TranslatedTie
